@@ -39,9 +39,9 @@ var (
 
 // purePackages: every function of these packages only reads its arguments and returns new values
 // (or values that cannot be written through: strings, numbers, time.Time, errors).
-var purePackages = []string{"math.", "strings.", "unicode.", "errors.", "time.", "(time.Time).", "encoding/hex.",
+var purePackages = []string{"math.", "strings.", "unicode.", "errors.", "time.", "(time.Time).", "encoding/hex.DecodeString", "encoding/hex.EncodeToString", "encoding/hex.EncodedLen", "encoding/hex.DecodedLen", "encoding/hex.Dump", "(encoding/hex.InvalidByteError).Error",
 	"os.", "flag.", "log.", "regexp.", "(*regexp.Regexp).", "(encoding/json.Number).", "strconv.ParseFloat", "strconv.FormatFloat",
-	"fmt.Errorf", "fmt.Sprintf", "fmt.Sprint", "fmt.Printf", "fmt.Println", "error.Error", "(*os.File).", "unicode/utf8.",
+	"fmt.Errorf", "fmt.Sprintf", "fmt.Sprint", "fmt.Printf", "fmt.Println", "error.Error", "(*os.File).", "unicode/utf8.DecodeRune", "unicode/utf8.DecodeRuneInString", "unicode/utf8.DecodeLastRune", "unicode/utf8.DecodeLastRuneInString", "unicode/utf8.RuneLen", "unicode/utf8.RuneCount", "unicode/utf8.RuneCountInString", "unicode/utf8.Valid", "unicode/utf8.ValidString", "unicode/utf8.ValidRune", "unicode/utf8.FullRune", "unicode/utf8.RuneStart",
 	"math/big.NewFloat", "(*math/big.Float).Cmp", "(*math/big.Float).Float64", "(*math/big.Float).IsInf", "(*math/big.Float).Sign",
 	"(*math/big.Float).Prec", "(*math/big.Float).Text", "(*math/big.Float).String",
 	"(*math/big.Rat).Cmp", "(*math/big.Rat).Sign", "math/big.NewRat", "math/big.NewInt", "(*math/big.Int).Sign", "(*math/big.Int).Cmp",
@@ -53,6 +53,9 @@ var purePackages = []string{"math.", "strings.", "unicode.", "errors.", "time.",
 }
 
 var externalsTable = map[string]extEffect{
+	// hex.Decode / hex.Encode / AppendEncode / AppendDecode write (and the append forms return) their destination
+	"unicode/utf8.EncodeRune": w0, "unicode/utf8.AppendRune": w0ret0,
+	"encoding/hex.Decode": w0, "encoding/hex.Encode": w0, "encoding/hex.AppendEncode": w0ret0, "encoding/hex.AppendDecode": w0ret0,
 	// in-place arithmetic on the receiver, which is also returned
 	"(*math/big.Float).Add": w0ret0, "(*math/big.Float).Sub": w0ret0, "(*math/big.Float).Mul": w0ret0, "(*math/big.Float).Quo": w0ret0,
 	"(*math/big.Float).SetFloat64": w0ret0, "(*math/big.Float).SetPrec": w0ret0, "(*math/big.Float).SetMode": w0ret0,
